@@ -1469,6 +1469,39 @@ pub fn peer_receiver(seed: u64, family: &str, variant: u8) -> Scenario {
             peer.steps.insert(at.min(peer.steps.len()), PeerStep::SendPkt(i));
         }
     }
+    // no-loss-signal family, "window on data" shape (own random stream, the other scenarios of
+    // the family are unchanged): the peer's window updates - shrinking, closing, re-opening - ride
+    // on copies of its own data packet, whose acknowledgement number often has not moved
+    if variant == 1 && !piggyback {
+        let mut r2 = Rng::new(seed ^ 0xDA7A_0F_57A7E);
+        if r2.chance(0.2) {
+            if peer.pkts.is_empty() {
+                peer.pkts = vec![r2.range(1, mss as u64) as u16];
+            }
+            params.insert("window_on_data".to_string(), 1);
+            let n = r2.range(2, 12);
+            for _ in 0..n {
+                let at = r2.below(peer.steps.len() as u64 + 1) as usize;
+                let wnd = match r2.below(5) {
+                    0 | 1 => 0,
+                    2 => r2.range(1, mss as u64) as u32,
+                    3 => r2.log_range(1, 1 << 20) as u32,
+                    _ => peer.wnd,
+                };
+                let persist = r2.chance(0.5);
+                peer.steps.insert(at, PeerStep::DataWnd { i: 0, wnd, persist });
+                // a closed window is re-opened by a bare ACK a little later
+                if wnd == 0 || r2.chance(0.3) {
+                    let w = r2.log_range(mss as u64, 1 << 20) as u32;
+                    peer.steps.insert(at + 1, PeerStep::Wait(r2.log_range(1, 400)));
+                    peer.steps.insert(at + 2, PeerStep::Ack { ack_delta: 0, wnd: Some(w), sack: SackSpec::None });
+                    if persist {
+                        peer.steps.insert(at + 3, PeerStep::DataWnd { i: 0, wnd: w, persist: true });
+                    }
+                }
+            }
+        }
+    }
     // A connector peer must send something after the SYN-ACK or the endpoint gives up: one ACK.
     peer.steps.insert(0, PeerStep::Ack { ack_delta: 0, wnd: None, sack: SackSpec::None });
     Scenario {
